@@ -410,6 +410,8 @@ class RgTarget:
         return out
 
     def replay(self, ob):
+        if 'no-write-after-exit' in ob['name']:
+            return {'func': 'stale_write', 'inputs': {'obligation': ob['name']}}
         if 'enter' in ob['name']:
             return {'func': 'enter_failure', 'inputs': {'obligation': ob['name']}}
         return {'func': 'timer_race', 'inputs': {'obligation': ob['name']}}
